@@ -541,7 +541,9 @@ func (x *decExec) afterCall(what string) {
 	}
 	if x.wr.spun {
 		x.spins++
-		x.report("C06", "%s: the call keeps calling the writer without making progress (%d consecutive empty writes, %d writer calls within the one call)",
+		// (a call that never returns has not accepted its - possibly valid -
+		// input either: C07)
+		x.reportAll([]string{"C06", "C07"}, "%s: the call keeps calling the writer without making progress (%d consecutive empty writes, %d writer calls within the one call)",
 			what, x.wr.emptyRun, x.wr.calls)
 		x.dead = true
 		return
